@@ -185,9 +185,16 @@ Definition gcol_read (file : bytes) (addr os : N) : outcome (list N) * alog :=
          | Panic => (Panic, log0)
          end.
 
-(* ---- object header message buffers: data := utils.GetBuffer(int(msgSize)) with msgSize a uint16 taken from the file;
-        GetBuffer allocates make([]byte, size, size*2) when the pooled buffer is too small ---- *)
-Definition msg_buffer_request (msgSize : N) : alog := [2 * wrap16 msgSize].
+(* ---- object header message buffers.  msgSize is a uint16 taken from the file.
+        Repaired code (notes/fixes/c07-header-message-buffers.patch): data := make([]byte, msgSize).
+        Before it: data := utils.GetBuffer(int(msgSize)), a pooled buffer of capacity >= 4096 (make(size, 2*size) when
+        larger) that stays referenced by the returned message: 4096 bytes per message however small. ---- *)
+Definition msg_buffer_request (msgSize : N) : alog := [wrap16 msgSize].
+Definition msg_buffer_request_pooled (msgSize : N) : alog :=
+  [if wrap16 msgSize <=? 4096 then 4096 else 2 * wrap16 msgSize].
+(* n one-byte messages of a version 2 header occupy 5 n bytes of the file *)
+Definition storm_file_bytes (n : N) : N := 5 * n.
+Definition storm_requests (pooled : bool) (n : N) : N := if pooled then 4096 * n else n.
 
 (* ---- applyDeflate / applyBZIP2: io.ReadAll(io.LimitReader(r, MaxChunkSize+1)): whatever the stream says, at most
         MaxChunkSize+1 bytes are produced; ReadAll's append growth keeps capacity below twice the length + 512 ---- *)
